@@ -155,6 +155,7 @@ def run(ctx):
             cov.sample({"family": name, "spec": fam.spec, "calls": calls})
     label_dtypes(ctx)
     topo_emptied_then_partial(ctx)
+    checkpoint_then_refit(ctx)
     e2e.base_histories(ctx, "C05", ctx.scale(150, 3000), ctx.scale(20, 80), fields=("labels", "cnt"))
 
 
@@ -228,3 +229,89 @@ def topo_emptied_then_partial(ctx):
         except Exception as e:
             cov.hit(f"topo-emptied:raised:{exc_enum(e)}")
         cov.case(("topo-emptied", fam.spec, desc["rows"]), True)
+
+
+# estimators that keep their whole trained state (W, labels_, counters) in their own attributes: a shallow copy of one of
+# these is a second estimator object in its own right.  Compound estimators (FusionART, DualVigilanceART, TopoART, CVIART,
+# the ARTMAPs) keep that state in sub-estimators, which a shallow copy shares by definition, so a re-fit of one side is a
+# re-fit of the other side's modules: they are outside this scenario.
+OWN_STATE = families.ELEM + ["iCVIFuzzyART"]
+
+
+def c05_state(o):
+    """the attributes the property speaks about, detached from the estimator"""
+    return {"labels": np.asarray(o.labels_).tolist(), "n_clusters": int(o.n_clusters), "nW": len(o.W),
+            "counters": [int(t) for t in o.weight_sample_counter_], "sample_counter": int(o.sample_counter_)}
+
+
+def checkpoint_then_refit(ctx):
+    """two estimator objects that share state through a shallow copy (`copy.copy(model)`, the cheap check-point): one of
+    them is trained further by a `fit` (which starts a new model: new W, new counters, new labels) on a data set that
+    very often has the SAME number of rows as the one before, the other receives no call.  Both objects are estimators
+    at a point of their own training history, so the property holds for each: the untouched one still has one label per
+    sample presented to it, labels that index its categories and counters equal to the label histogram — its state is
+    what it was — and the re-fitted one is consistent with the new data; the untouched one can then go on learning with
+    partial_fit.  (partial_fit directly after the copy is not used: it appends to the W list the two objects share.)"""
+    import copy
+    cov = ctx.cov
+    for i in range(ctx.scale(120, 2000)):
+        r = gen.rng_for(ctx.seed, "C05-checkpoint", i)
+        name = OWN_STATE[i % len(OWN_STATE)]
+        floats = r.random() < 0.25
+        fam, rows = families.build(r, name, r.randint(2, 14), floats=floats)
+        n = len(rows)
+        if fam.fresh is None:
+            continue
+        # first training history of the original (as in run)
+        calls, j = [], 0
+        for p in gen.compositions(r, n):
+            op = "fit" if (not fam.has_pfit or (fam.has_fit and (j == 0 or r.random() < 0.25))) else "pfit"
+            calls.append((op, j, j + p))
+            j += p
+        desc = dict(fam.describe(), rows=rows.tolist(), calls=calls)
+        key = None
+        try:
+            est = fam.make()
+            since = 0
+            for op, a, b in calls:
+                if op == "fit":
+                    fam.fit(est, rows.sl(a, b))
+                    since = b - a
+                else:
+                    fam.pfit(est, rows.sl(a, b))
+                    since += b - a
+            twin = copy.copy(est)
+            refit = r.choice(["original", "copy"])
+            trained, kept = (est, twin) if refit == "original" else (twin, est)
+            kept_role = "copy" if refit == "original" else "original"
+            m = since if r.random() < 0.65 else r.randint(1, 14)
+            rows2 = fam.fresh(r, m, floats)
+            m = len(rows2)
+            desc.update(shallow_copy_after_call=len(calls) - 1, refit=refit, refit_rows=rows2.tolist())
+            key = (name, fam.spec, desc["rows"], calls, refit, desc["refit_rows"])
+            check_state(ctx, fam, kept, since, desc, f"{kept_role} right after copy.copy")
+            before = c05_state(kept)
+            fam.fit(trained, rows2)
+            where = f"the {kept_role} (no call since copy.copy) after the {refit} was re-fitted on {m} rows (before: {since} rows)"
+            after = c05_state(kept)
+            if after != before:
+                diff = {k_: (before[k_], after[k_]) for k_ in before if before[k_] != after[k_]}
+                ctx.issue("violation", f"{name}:state-changed-without-call", f"{where}: (before, after) = {diff}",
+                          dict(desc, where=where))
+            check_state(ctx, fam, kept, since, desc, where)
+            check_state(ctx, fam, trained, m, desc, f"the re-fitted {refit} ({m} rows; its twin keeps the {since}-row model)")
+            cov.hit(f"checkpoint:refit-{refit}:{'same' if m == since else 'other'}-row-count")
+            if fam.has_pfit and r.random() < 0.4:
+                k = r.randint(1, 5)
+                rows3 = fam.fresh(r, k, floats)
+                desc = dict(desc, then_partial_fit_rows_on_untouched=rows3.tolist())
+                fam.pfit(kept, rows3)
+                check_state(ctx, fam, kept, since + len(rows3), desc, f"the {kept_role} after the {refit} was re-fitted, then partial_fit "
+                            f"of {len(rows3)} rows on the {kept_role}")
+                check_state(ctx, fam, trained, m, desc, f"the re-fitted {refit} after its twin went on with partial_fit")
+                cov.hit("checkpoint:untouched-twin-then-partial_fit")
+            cov.case(key, before["nW"] >= 2 and len(trained.W) >= 1)
+        except Exception as e:
+            cov.hit(f"checkpoint:raised:{name}:{exc_enum(e)}")
+            if key is not None:
+                cov.case(key, False)
